@@ -16,7 +16,7 @@
 From Coq Require Import List NArith Bool Arith Permutation Lia.
 Import ListNotations.
 Require Import MV.Common.Interleave MV.C05.Model MV.C05.Spec MV.C05.Exec.
-Require Import MV.C05.ProofsSeq MV.C05.ProofsInv MV.C05.ProofsCor MV.C05.ProofsUniq MV.C05.ProofsCons MV.C05.ProofsProg MV.C05.ProofsSnap MV.C05.ProofsEmpty MV.C05.ProofsOrder MV.C05.ProofsSpec MV.C05.ProofsTrace1 MV.C05.ProofsTrace2 MV.C05.ProofsTrace3 MV.C05.ProofsTrace4 MV.C05.ProofsTrace5 MV.C05.ProofsTrace6 MV.C05.ProofsTrace7.
+Require Import MV.C05.ProofsSeq MV.C05.ProofsInv MV.C05.ProofsCor MV.C05.ProofsUniq MV.C05.ProofsCons MV.C05.ProofsProg MV.C05.ProofsSnap MV.C05.ProofsEmpty MV.C05.ProofsOrder MV.C05.ProofsSpec MV.C05.ProofsTrace1 MV.C05.ProofsTrace2 MV.C05.ProofsTrace3 MV.C05.ProofsTrace4 MV.C05.ProofsTrace5 MV.C05.ProofsTrace6 MV.C05.ProofsTrace7 MV.C05.ProofsTrace8.
 Local Open Scope nat_scope.
 
 (* (1) complete calls, run one after the other by any threads, are exactly the bag operations:
@@ -433,6 +433,42 @@ Theorem C05_spec_conservation_on_model : forall c : case, known_class c = None -
   nodupb rhs && forallb (fun i => memb (px i) rhs) (pinfos tr 0 (progs_of c))
   && Nat.eqb (length rhs) (length (pinfos tr 0 (progs_of c))) = true.
 Proof. exact spec_conservation_on_model. Qed.
+
+(* (12) fourth stage: clause S3.
+   S3 IS FALSE on the model outside the late-claim class when more than B = 64 threads push
+   concurrently (C05_is_empty_true_beyond_B_threads: 67 threads; 64 completed pushes resident in the
+   oldest block, all 64 slots of its successor claimed and unpublished, a fresh head: is_empty
+   returns true).  The real code does the same on this schedule (replayed: model and implementation
+   agree step by step), so this is the CODE - is_empty inspects only the head block and its
+   successor - exactly the bound stated in C05_is_empty_sound; the wf hypothesis of the conjunction
+   must therefore contain "at most 64 threads".
+   NOT PROVED: C05_spec_completeness_on_model (S3 under done) and hence C05_spec_ok_on_model.
+   Proved towards it: the publication column of the push table is tied to the configuration
+   (C05_spec_pub_positions_on_model: an entry with a 503 position is a completed push whose value
+   sits in a published slot).  Still missing: the positions of 530 / 520 / 541 and empty_end in the
+   ledger, the alignment of data_with / is_empty / clear_with calls with them, a detach ledger (which
+   541 detached which block) for the `clears` disjunct of `accounts`, and the use of
+   C05_snapshot_sees_completed / C05_is_empty_sound along the trace. *)
+Theorem C05_is_empty_true_beyond_B_threads :
+  length (fst many_case) = 67 /\ known_class many_case = None /\
+  (let '(_, rss, done, final, _) := run_case many_case in
+   nth 66 rss [] = [REmpty true] /\ done = true /\ length (concat final) = 129) /\
+  spec_ok many_case (run_case many_case) = false.
+Proof. exact is_empty_true_beyond_B_threads. Qed.
+
+(* a racing scheduled case inside the hypotheses: 65 pushes crossing the block boundary, is_empty in
+   the hand-over window, a snapshot overlapping the 65th push, a clear at the end *)
+Theorem C05_race_example_run_ok :
+  length (fst race_case) <= 64 /\ known_class race_case = None /\ spec_ok race_case (run_case race_case) = true.
+Proof. exact race_example. Qed.
+
+Theorem C05_spec_pub_positions_on_model : forall c : case,
+  let '(tr, _, _, _, _) := run_case c in
+  let cf := fst (run_gen BS true true c) in
+  forall i w, In i (pinfos tr 0 (progs_of c)) -> ppub i = Some w ->
+    w < length tr /\ genuine (progs_of c) (px i) /\
+    exists b j, slot (heap (fst cf)) b j = Some (px i) /\ pub (heap (fst cf)) b j.
+Proof. exact spec_pub_positions_on_model. Qed.
 
 (* Block::len must be trailing_ones, not count_ones: in a reachable configuration where a snapshot
    stands at 506 after a passed quiescence test, a popcount length hands out an unwritten slot,
